@@ -2,6 +2,7 @@ package main
 
 // Every driver package registers itself in drivers.Registry from init().
 import (
+	_ "github.com/ProtonMail/gluon/verif/drivers/c03"
 	_ "github.com/ProtonMail/gluon/verif/drivers/c16"
 	_ "github.com/ProtonMail/gluon/verif/drivers/selftest"
 )
